@@ -9,7 +9,7 @@ use harness::guard::Arena;
 use harness::report::{catch, hex, journal, Args, PropAcc};
 use harness::{Observation, ShapeDyn};
 use refmodel::ops::{Kind, KINDS};
-use refmodel::values::{enum_values, Limits};
+use refmodel::values::{enum_values, scale_ladder, scaled_value, Limits};
 use refmodel::{ceil, decode, encode, serialize_portable, Desc, Value};
 use serde_json::json;
 
@@ -60,6 +60,8 @@ struct Case<'a> {
     n: usize,
     off: usize,
     fill: u8,
+    /// ladder value: recorded as `scaled_value(N)` instead of its printed form
+    scale: Option<usize>,
 }
 
 struct Outcome {
@@ -303,10 +305,16 @@ impl Engine for Emplace {
             return m;
         }
         let record = |m: &mut Accs, c: &Case, o: &Outcome| {
-            let replay = json!({"engine": "emplace", "shape": c.s.id(), "vi": c.vi, "value": format!("{:?}", c.v), "kind": kname(c.kind), "entry": ename(c.entry), "n": c.n, "off": c.off, "fill": c.fill});
-            for (p, key, detail) in &o.v {
-                if let Some(acc) = m.get_mut(p) {
-                    acc.violate(format!("emplace/{}/{}/{}", key, ename(c.entry), fam), format!("{} value={:?} kind={} n={} off={} fill={:02x}: {}", c.s.id(), c.v, kname(c.kind), c.n, c.off, c.fill, detail), replay.clone());
+            if !o.v.is_empty() {
+                let vtxt = match c.scale {
+                    Some(nn) => format!("<ladder value N={}>", nn),
+                    None => format!("{:?}", c.v),
+                };
+                let replay = json!({"engine": "emplace", "shape": c.s.id(), "vi": c.vi, "value": vtxt, "scale": c.scale, "kind": kname(c.kind), "entry": ename(c.entry), "n": c.n, "off": c.off, "fill": c.fill});
+                for (p, key, detail) in &o.v {
+                    if let Some(acc) = m.get_mut(p) {
+                        acc.violate(format!("emplace/{}/{}/{}", key, ename(c.entry), fam), format!("{} value={} kind={} n={} off={} fill={:02x}: {}", c.s.id(), vtxt, kname(c.kind), c.n, c.off, c.fill, detail.chars().take(800).collect::<String>()), replay.clone());
+                    }
                 }
             }
             for (p, acc) in m.iter_mut() {
@@ -318,7 +326,10 @@ impl Engine for Emplace {
                 };
                 if relevant {
                     acc.evaluations += 1;
-                    acc.distinct.insert(format!("{}:{}:{}:{}", c.s.id(), c.vi, kname(c.kind), o.class));
+                    match c.scale {
+                        Some(nn) => acc.distinct.insert(format!("{}:N{}:{}:{}", c.s.id(), nn, kname(c.kind), o.class)),
+                        None => acc.distinct.insert(format!("{}:{}:{}:{}", c.s.id(), c.vi, kname(c.kind), o.class)),
+                    };
                     acc.count(&o.class, 1);
                 }
             }
@@ -338,7 +349,7 @@ impl Engine for Emplace {
                             let fills: &[u8] = if aligned && n >= need { &FILLS } else { &FILLS[2..] };
                             let mut images: Vec<Vec<u8>> = vec![];
                             for &fill in fills {
-                                let c = Case { s, d: &d, v, vi, kind, entry, n, off, fill };
+                                let c = Case { s, d: &d, v, vi, kind, entry, n, off, fill, scale: None };
                                 journal(format!("emplace {} vi={} kind={} entry={} n={} off={} fill={}", id, vi, kname(kind), ename(entry), n, off, fill).as_bytes());
                                 let o = run_case(&mut arena, &c);
                                 record(&mut m, &c, &o);
@@ -368,6 +379,71 @@ impl Engine for Emplace {
                 }
             }
         }
+        // ---------------- beyond the small scope: container sizes from the scale ladder in tight buffers, small
+        // values and the default in buffers of 100 .. 520 (T: .. 70 000) bytes
+        if !only_portable || portable {
+            let ladder = scale_ladder(thorough);
+            let buffers = buffer_ladder(thorough);
+            let flexy = format!("{:?}", d).contains("Flex");
+            let maxb = buffers.iter().max().cloned().unwrap_or(0);
+            let mut big_arena = Arena::new(maxb.max(ladder.iter().max().cloned().unwrap_or(0) * 20) + 4 * a + 4096);
+            if !d.is_sized() {
+                for nn in ladder {
+                    if flexy && nn > 4100 {
+                        continue;
+                    }
+                    let v = match scaled_value(&d, nn) {
+                        Some(v) => v,
+                        None => continue,
+                    };
+                    let need = match encode(&d, &v, nn * 64 + 4096, 0) {
+                        Ok(i) => i.extent,
+                        Err(_) => continue,
+                    };
+                    if need + 2 * a + 8 > big_arena.capacity() {
+                        big_arena = Arena::new(need + 2 * a + 4096);
+                    }
+                    for kind in KINDS {
+                        for (n, fill) in [(need.saturating_sub(a), 0xEEu8), (need - 1, 0xEE), (need, 0xEE), (need, 0x00), (need + 1, 0xEE), (need + a, 0x11), (need + 2 * a + 3, 0xEE)] {
+                            let c = Case { s, d: &d, v: &v, vi: 0, kind, entry: Entry::New, n, off: 0, fill, scale: Some(nn) };
+                            journal(format!("emplace-scale {} N={} kind={} entry={} n={} off=0 fill={}", id, nn, kname(kind), ename(Entry::New), n, fill).as_bytes());
+                            let o = run_case(&mut big_arena, &c);
+                            record(&mut m, &c, &o);
+                        }
+                    }
+                }
+            }
+            for (vi, v) in vals.iter().enumerate() {
+                if vi != 0 && vi + 1 != vals.len() {
+                    continue;
+                }
+                for &b in &buffers {
+                    for fill in [0xEEu8, 0x00] {
+                        let c = Case { s, d: &d, v, vi, kind: Kind::Iter, entry: Entry::New, n: b, off: 0, fill, scale: None };
+                        journal(format!("emplace {} vi={} kind={} entry={} n={} off={} fill={}", id, vi, kname(Kind::Iter), ename(Entry::New), b, 0, fill).as_bytes());
+                        let o = run_case(&mut big_arena, &c);
+                        record(&mut m, &c, &o);
+                    }
+                }
+            }
+            if s.has_default() && !only_portable {
+                if let Some(dv) = d.default_value() {
+                    for &b in &buffers {
+                        for fill in [0xEEu8, 0x00] {
+                            let c = Case { s, d: &d, v: &dv, vi: usize::MAX, kind: Kind::Iter, entry: Entry::Default, n: b, off: 0, fill, scale: None };
+                            journal(format!("emplace {} default n={} off={} fill={}", id, b, 0, fill).as_bytes());
+                            let mut o = run_case(&mut big_arena, &c);
+                            for x in o.v.iter_mut() {
+                                if x.0 == "C03" || x.0 == "C05" {
+                                    x.0 = "C20";
+                                }
+                            }
+                            record(&mut m, &c, &o);
+                        }
+                    }
+                }
+            }
+        }
         // ---------------- default_in_place
         if s.has_default() && (args.wants("C20") || args.wants("C15")) && !only_portable {
             match d.default_value() {
@@ -384,7 +460,7 @@ impl Engine for Emplace {
                             let fills: &[u8] = if off == 0 && n >= need { &[0x00, 0xFF, 0xEE, 0x11] } else { &[0xEE] };
                             let mut images: Vec<Vec<u8>> = vec![];
                             for &fill in fills {
-                                let c = Case { s, d: &d, v: &dv, vi: usize::MAX, kind: Kind::Iter, entry: Entry::Default, n, off, fill };
+                                let c = Case { s, d: &d, v: &dv, vi: usize::MAX, kind: Kind::Iter, entry: Entry::Default, n, off, fill, scale: None };
                                 journal(format!("emplace {} default n={} off={} fill={}", id, n, off, fill).as_bytes());
                                 let mut o = run_case(&mut arena, &c);
                                 // what C03 checks for new_in_place is the C20 contract for defaults
@@ -553,8 +629,12 @@ impl Engine for Emplace {
         // values are re-enumerated deterministically; both tiers are tried for the index
         let vi = case["vi"].as_i64().unwrap_or(0);
         let want = case["value"].as_str().unwrap_or("").to_string();
-        let mut v: Option<Value> = None;
+        let mut v: Option<Value> = case["scale"].as_u64().and_then(|nn| scaled_value(&d, nn as usize));
+        let scale = case["scale"].as_u64().map(|x| x as usize);
         for lim in [Limits::quick(), Limits::thorough()] {
+            if v.is_some() && scale.is_some() {
+                break;
+            }
             for (i, x) in enum_values(&d, avail, &lim).into_iter().enumerate() {
                 // recorded either by its printed form or (crash journal) as "#<index>"
                 if format!("{:?}", x) == want || (want == format!("#{}", i) && v.is_none()) {
@@ -577,7 +657,7 @@ impl Engine for Emplace {
         };
         let n = case["n"].as_u64().unwrap() as usize;
         let mut arena = Arena::new(n + 4 * a + 96);
-        let c = Case { s, d: &d, v: &v, vi: 0, kind: kparse(case["kind"].as_str().unwrap_or("iter")), entry, n, off: case["off"].as_u64().unwrap_or(0) as usize, fill: case["fill"].as_u64().unwrap_or(0xEE) as u8 };
+        let c = Case { s, d: &d, v: &v, vi: 0, kind: kparse(case["kind"].as_str().unwrap_or("iter")), entry, n, off: case["off"].as_u64().unwrap_or(0) as usize, fill: case["fill"].as_u64().unwrap_or(0xEE) as u8, scale: None };
         let o = run_case(&mut arena, &c);
         println!("shape {} value {:?} kind {:?} entry {} n={} off={} fill={:#x}", s.id(), v, c.kind, ename(entry), n, c.off, c.fill);
         println!("outcome class: {}  image: {}", o.class, o.image.as_ref().map(|i| hex(i)).unwrap_or_default());
